@@ -57,6 +57,7 @@ fn jump_back(len: usize) {
 // @bound code lengths 2, 65532, 65533 and 69000 (concrete), every target ip <= length (symbolic): every distance from 3 to 69003, the u16 boundary 65535 / 65536 included
 // @assume the jump target lies at or before the current end of the code (loop start ips are recorded before the body is compiled)
 // @kani --no-memory-safety-checks --no-assertion-reach-checks
+// @timeout 1500
 #[kani::proof]
 #[kani::unwind(4)]
 #[kani::stub(std::hash::RandomState::new, stub_random_state)]
@@ -94,6 +95,7 @@ fn jump_forward(pos: usize) {
 // @fns Compiler::update_offset_placeholder (forward jumps: if / else, short-circuit and / or, loop exits, break, match arms, try, function sizes)
 // @bound placeholder at concrete positions 0, 1 and 7, code length symbolic up to 69000 (a symbolic write index into a 70 kB buffer produced 31 M clauses, DESIGN §4 C05.jfwd)
 // @kani --no-memory-safety-checks --no-assertion-reach-checks
+// @timeout 1500
 #[kani::proof]
 #[kani::unwind(4)]
 #[kani::stub(std::hash::RandomState::new, stub_random_state)]
